@@ -219,6 +219,10 @@ class InventoryFileReader:
             yield decompressor.decompress(self.buffer)
             self.buffer = b""
         yield decompressor.flush()
+        if not decompressor.eof:
+            # flush() does not complain about an unfinished stream,
+            # which would silently give a partial inventory
+            raise ValueError("invalid inventory: truncated zlib stream")
 
     def read_compressed_lines(self) -> Iterator[str]:
         # split into lines as Sphinx does (str.splitlines), which also yields
